@@ -366,6 +366,38 @@ func main() {
 	if tier == "thorough" {
 		bound = 3
 	}
+	if rp := os.Getenv("VERIF_REPLAY"); rp != "" {
+		var doc struct {
+			First struct {
+				Replay struct {
+					Scenario scenario
+					Schedule []int
+				}
+			}
+		}
+		b, err := os.ReadFile(rp)
+		if err != nil || json.Unmarshal(b, &doc) != nil {
+			fmt.Fprintln(os.Stderr, "cannot read replay", rp, err)
+			os.Exit(2)
+		}
+		body, check := run(doc.First.Replay.Scenario)
+		r := vrt.Run(vrt.Config{Trace: os.Getenv("VERIF_TRACE") != "", MaxPoints: 20000}, doc.First.Replay.Schedule, body)
+		for _, l := range r.Trace {
+			fmt.Println("  ", l)
+		}
+		fmt.Println("outcome:", r.Outcome, r.Panic)
+		for _, l := range r.Log {
+			fmt.Println("log:", l)
+		}
+		fs := check(r)
+		for _, f := range fs {
+			fmt.Printf("VIOLATION property=C07 replay=%s\n  %s: %s\n", rp, f.Sig, f.Desc)
+		}
+		if len(fs) > 0 {
+			os.Exit(1)
+		}
+		return
+	}
 	if i, n := lib.ShardEnv(); n > 0 {
 		out := &shardOut{Counters: map[string]int64{}, MinBound: 99}
 		perScenario := 20 * time.Second
